@@ -54,4 +54,16 @@ fire("c15-msm-predicate-substring", ["C15"], MSG, 'return "MSM" in RTCM_MSGIDS[s
 silent("c15-identity-locals-renamed", ["C15"], [(MSG, "mid = self._payload[0] << 4 | self._payload[1] >> 4\n\n        if mid == 4076:  # proprietary IGS SSR message type\n            subtype = (self._payload[1] & 0x1) << 7 | self._payload[2] >> 1\n            mid = f\"{mid}_{subtype:03d}\"\n\n        return str(mid)",
         "msgno = (self._payload[0] << 4) + (self._payload[1] >> 4)\n        if msgno != 4076:\n            return str(msgno)\n        st = ((self._payload[1] & 1) << 7) + (self._payload[2] >> 1)\n        return f\"{msgno}_{st:03d}\"")], "equivalent rewrite of identity")
 
+# ----------------------------------------------------------------------------- C19
+_DD_NEW = '    while datafield not in RTCM_DATA_FIELDS and "_" in datafield:\n        datafield = datafield.rsplit("_", 1)[0]\n    (_, _, _, desc) = RTCM_DATA_FIELDS[datafield]'
+fire("c19-datadesc-slice5", ["C19"], HLP, _DD_NEW, '    (_, _, _, desc) = RTCM_DATA_FIELDS[datafield[0:5]]', "original defect F-C19 re-introduced")
+fire("c19-datadesc-split0", ["C19"], HLP, _DD_NEW, '    (_, _, _, desc) = RTCM_DATA_FIELDS[datafield.split("_")[0]]', "wrong description for DF001_7, KeyError for DF422_1")
+fire("c19-datadesc-slice6", ["C19"], HLP, _DD_NEW, '    (_, _, _, desc) = RTCM_DATA_FIELDS[datafield[0:6]]')
+fire("c19-datadesc-wrong-component", ["C19"], HLP, "    (_, _, _, desc) = RTCM_DATA_FIELDS[datafield]", "    (_, _, desc, _) = RTCM_DATA_FIELDS[datafield]")
+fire("c19-att2name-slice", ["C19"], HLP, '    return att.split("_")[0]', "    return att[0:5]", "att2name by slicing breaks IDF names")
+fire("c19-att2idx-second-only", ["C19"], HLP, "            return tuple(int(att[i]) for i in range(1, ln))", "            return int(att[1])", "nested indices collapse to the first")
+fire("c19-att2idx-from-2", ["C19"], HLP, "for i in range(1, ln))", "for i in range(2, ln))")
+silent("c19-att2name-partition", ["C19"], [(HLP, '    return att.split("_")[0]', '    return att.partition("_")[0]')], "equivalent")
+silent("c19-datadesc-split-loop", ["C19"], [(HLP, _DD_NEW, '    parts = datafield.split("_")\n    while "_".join(parts) not in RTCM_DATA_FIELDS and len(parts) > 1:\n        parts.pop()\n    (_, _, _, desc) = RTCM_DATA_FIELDS["_".join(parts)]')], "equivalent rewrite")
+
 VARIANTS = V
